@@ -103,6 +103,16 @@ Theorem C18_strings_ordered_by_stringCompare : forall s t,
 Proof. exact str_order. Qed.
 Print Assumptions C18_strings_ordered_by_stringCompare.
 
+Theorem C18_string_equals_only_strings : forall s v,
+  (forall t, v <> JStr t) -> op_eq (JStr s) v = false /\ op_eq v (JStr s) = false.
+Proof. exact string_equals_only_strings. Qed.
+Print Assumptions C18_string_equals_only_strings.
+
+Theorem C18_raw_equals_only_raw : forall s v,
+  (forall t, v <> JRaw t) -> op_eq (JRaw s) v = false /\ op_eq v (JRaw s) = false.
+Proof. exact raw_equals_only_raw. Qed.
+Print Assumptions C18_raw_equals_only_raw.
+
 (* the full statement (without wf) is FALSE of the faithful model, with this witness — the known finding *)
 Theorem C18_symmetry_needs_distinct_keys :
   exists a b, op_eq a b <> op_eq b a.
